@@ -61,7 +61,7 @@ def scriptHandler : Handler
           match ["err", "state", "dump", "dumpDown", "hash", "errSplit", "errSplit2", "reject"].find? (fun k => isPanic (o k)) with
           | some k => throw s!"panic in {k}: {o k}"
           | none => pure ()
-        (judge "C08" none (check (o "stateAfterOutputs" == o "state" || isPanic (o "dump") || isPanic (o "dumpDown"))
+        (judge "C08" region (check (o "stateAfterOutputs" == o "state" || isPanic (o "dump") || isPanic (o "dumpDown"))
           "StringUp / StringDown / HashValue changed the loaded model")).and <|
         (judge "C05" region (fidelity true)).and <|
         (judge "C05" (region.map (· ++ "/split")) split).and <|
